@@ -3,7 +3,7 @@ CONSTANTS
   NMin = 2
   NMax = 7
   TVals = {1,2,4}
-  SWs = {0,10,34,100,150}
+  SWs = {0,10,150}
   MaxNodes = 1
   Limits = {2,1000}
   Kinds = {"npoint"}
